@@ -265,6 +265,153 @@ func vc11RangeHeld(b *SyncBacklog, from, to uint64) (out string, l []*hapb.SyncS
 	return vc11SeqList(l), l
 }
 
+// ---------- conc cases: HandleEvent run by concurrent handlers, as the event bus does (go h(event)) ----------
+// A handler is stopped inside sessionToCheckpoint (the first getter it calls on the session blocks on a gate): on /repo
+// HEAD that is after the sequence number has been taken and before the push; with number+push+enqueue under one lock
+// (and the checkpoint built before) it is before the number is taken.  No sleeps: every step is a handshake.
+type vc11GateSess struct {
+	*models.IPoESession
+	reached chan struct{}
+	release chan struct{}
+	once    sync.Once
+}
+
+func (g *vc11GateSess) GetSessionID() string {
+	g.once.Do(func() {
+		close(g.reached)
+		<-g.release
+	})
+	return g.IPoESession.SessionID
+}
+
+func vc11Conc(f []string) string {
+	capacity := vc11Int(f[2]) // f[1] is the input class
+	log := logger.NewTest()
+	ss := NewSyncSender(nil, capacity, []string{"srg1"}, log)
+	ss.SetActive(true)
+	type handler struct {
+		sess *vc11GateSess
+		done chan struct{}
+	}
+	hs := map[string]*handler{}
+	start := func(id string, sid int, gated bool) *handler {
+		gs := &vc11GateSess{IPoESession: &models.IPoESession{SessionID: vc11Name(sid, "s"), SRGName: "srg1",
+			State: models.SessionStateActive, MAC: net.HardwareAddr{2, 0, 0, 0, 0, byte(sid)}},
+			reached: make(chan struct{}), release: make(chan struct{})}
+		if !gated {
+			close(gs.release)
+		}
+		h := &handler{sess: gs, done: make(chan struct{})}
+		go func() {
+			defer close(h.done)
+			defer func() { recover() }()
+			ss.HandleEvent(events.Event{Data: &events.SessionLifecycleEvent{SessionID: gs.IPoESession.SessionID,
+				State: models.SessionStateActive, Session: gs}})
+		}()
+		select {
+		case <-gs.reached:
+		case <-h.done:
+		case <-time.After(10 * time.Second):
+			panic("handler did not reach the gate")
+		}
+		return h
+	}
+	finish := func(h *handler) {
+		select {
+		case <-h.sess.release:
+		default:
+			close(h.sess.release)
+		}
+		select {
+		case <-h.done:
+		case <-time.After(10 * time.Second):
+			panic("handler did not finish")
+		}
+	}
+	for _, o := range f[3:] {
+		t := strings.Split(o, ":")
+		switch t[0] {
+		case "H":
+			hs[t[1]] = start(t[1], vc11Int(t[2]), true)
+		case "F":
+			if h := hs[t[1]]; h != nil {
+				finish(h)
+				delete(hs, t[1])
+			}
+		case "E":
+			finish(start("", vc11Int(t[1]), false))
+		}
+	}
+	for _, h := range hs { // never leave a goroutine behind
+		finish(h)
+	}
+	b := ss.GetBacklog("srg1")
+	var ring, stream []string
+	var retained []uint64
+	b.mu.Lock()
+	for j := 0; j < b.size; j++ {
+		e := b.entries[(b.head-b.size+b.capacity+j)%b.capacity]
+		ring = append(ring, strconv.FormatUint(e.Sequence, 10))
+		retained = append(retained, e.Sequence)
+	}
+	b.mu.Unlock()
+	var streamSeq []uint64
+drain:
+	for {
+		select {
+		case q := <-ss.sendCh:
+			stream = append(stream, strconv.FormatUint(q.Sequence, 10))
+			streamSeq = append(streamSeq, q.Sequence)
+		default:
+			break drain
+		}
+	}
+	consec := func(l []uint64) string {
+		for i := 1; i < len(l); i++ {
+			if l[i] != l[i-1]+1 {
+				return "bad"
+			}
+		}
+		return "ok"
+	}
+	// Range must return precisely the retained entries of the range, in sequence order
+	n := uint64(len(streamSeq))
+	exact := "ok"
+	var answers []string
+	for from := uint64(0); from <= n+1; from++ {
+		for to := uint64(0); to <= n+1; to++ {
+			got, _ := vc11RangeHeld(b, from, to)
+			answers = append(answers, got)
+			var want []uint64
+			for _, s := range retained {
+				if from <= s && s <= to {
+					want = append(want, s)
+				}
+			}
+			sort.Slice(want, func(i, j int) bool { return want[i] < want[j] })
+			ws := "nil"
+			if len(want) > 0 {
+				p := make([]string, len(want))
+				for i, s := range want {
+					p[i] = strconv.FormatUint(s, 10)
+				}
+				ws = strings.Join(p, ",")
+			}
+			if got != ws {
+				exact = "bad"
+			}
+		}
+	}
+	j := func(l []string) string {
+		if len(l) == 0 {
+			return "-"
+		}
+		return strings.Join(l, ",")
+	}
+	return fmt.Sprintf("seq=%d ring=%s stream=%s answers=%s ringconsec=%s streamorder=%s rangeexact=%s", ss.GetSeq("srg1"),
+		j(ring), j(stream), strings.Join(answers, "|"), consec(retained), consec(streamSeq), exact)
+}
+
 // ---------- hist cases ----------
 type vc11Pool struct {
 	fam     int
@@ -829,6 +976,8 @@ func TestVerifC11(t *testing.T) {
 				done <- vc11Rng(f)
 			case "hist":
 				done <- vc11Hist(f)
+			case "conc":
+				done <- vc11Conc(f)
 			default:
 				done <- "badline"
 			}
